@@ -99,8 +99,10 @@ def run(ctx):
                 ctx.case(("adc-small", L, n, ot), {"ADC": [d, n, ot]} if L == 4 else None)
     for k in range(150 if T else 14):
         n = rnd.choice([2, 50, 1000, 9999, 10001, 20001, 2 ** 15 + 1] + ([2 ** 17] if T else []))
+        if k == 0:
+            n = 70001                  # one record beyond 2^16 samples in every run
         rs = np.random.RandomState(100 + k)
-        dist = rnd.choice(["gauss", "uniform", "sine", "quantised"])
+        dist = rnd.choice(["gauss", "uniform", "sine", "quantised"]) if k else "gauss"
         x = {"gauss": lambda: np.round(rs.randn(n) * 200), "uniform": lambda: np.round(rs.uniform(-500, 500, n)),
              "sine": lambda: np.round(400 * np.sin(np.arange(n) * 0.11)), "quantised": lambda: np.round(rs.randn(n) * 2)}[dist]()
         outl = n >= 10001 and rnd.random() < 0.8
